@@ -90,6 +90,12 @@ def certificate_search(R, c, radius=3, max_labels=4):
     base = symvals(c['ci'][3])
     fresh = [n for n in c['inl'].names if c17_gen.is_fresh(n) and n in base]
     deltas = sorted(range(-radius, radius + 1), key=abs)
+    # the two layouts may be further apart: also try the shifts the global labels and the total length show
+    claimed0 = symvals(c['cm'][3])
+    shifts = {claimed0[g] - base[g] for g in claimed0 if g in base} | {(len(c['cm'][1]) - len(c['ci'][1])) // 8}
+    deltas = [0] + sorted((d for d in shifts if d != 0), key=abs) + [d for d in deltas if d != 0 and d not in shifts]
+    nd = max(2, int(3000 ** (1.0 / max(1, len(fresh)))))          # at most about 3000 candidates
+    deltas = deltas[:nd]
     if len(fresh) <= max_labels:
         cases = []
         for combo in itertools.product(deltas, repeat=len(fresh)):
@@ -119,13 +125,21 @@ def certificate_search(R, c, radius=3, max_labels=4):
     return False
 
 
+def rerun_budget(c):
+    """the larger budget for second looks at a macro program (macro programs that stay rejected cost about
+    (budget+1)^depth inner rounds in the debug build)"""
+    return {1: 30, 2: 16}.get(c['depth'], 9)
+
+
 def macro_stream(chk, R, rng, n, size_static, tag):
     # candidates are pre-selected on the IN-PLACE program's outcome (all that assemble, one in five of the rejected ones):
     # rejected macro programs of depth 2-3 cost (budget+1)^depth inner rounds in the debug build
     cand = []
     for i in range(3 * n):
         prog, inl, feats, depth = c17_gen.gen_macro_case(rng, size_static=size_static)
-        b = 10 if (rng.chance(0.6) or depth >= 3) else 30
+        b = 10 if rng.chance(0.6) else 30
+        if depth >= 2:
+            b = 10 if depth == 2 else 6      # a rejected program costs about (budget+1)^depth inner rounds in the debug build
         s, m = rng.chance(0.5), rng.chance(0.5)
         mt = prog.text()
         it = prog.isa.text() + '\n'.join(inl.lines()) + '\n'
@@ -191,7 +205,7 @@ def macro_stream(chk, R, rng, n, size_static, tag):
         texts = []
         for (c, kind, t) in second:
             if kind == "rerun30":
-                texts.append((c['mt'], 30, c['s'], c['m']))
+                texts.append((c['mt'], rerun_budget(c), c['s'], c['m']))
             else:
                 vals = symvals(c['cm'][3])
                 lines = pin_globals(list(zip(c['inl'].items, c['inl'].lines())), vals, c17_gen.is_fresh)
@@ -202,7 +216,7 @@ def macro_stream(chk, R, rng, n, size_static, tag):
         for (c, kind, _), a in zip(second, ra):
             cr = asm_gen.canon_impl(a)
             if kind == "rerun30":
-                if c['b'] < 30 and msig(cr) == msig(c['ci']):
+                if c['b'] < rerun_budget(c) and msig(cr) == msig(c['ci']):
                     dist["needs_more_passes_than_inlined"] += 1
                 else:
                     third.append(c)
@@ -228,7 +242,7 @@ def macro_stream(chk, R, rng, n, size_static, tag):
                     if idx in ends and ends[idx] in vals:
                         lines.append('#addr 0x%x' % vals[ends[idx]])      # the text after a macro call starts where it does in place
                 c['hinted'] = c['prog'].isa.text() + '\n'.join(lines) + '\n'
-                texts.append((c['hinted'], 30, c['s'], c['m']))
+                texts.append((c['hinted'], rerun_budget(c), c['s'], c['m']))
             ha = R.impl(texts)
             for c, a in zip(third, ha):
                 ch = asm_gen.canon_impl(a)
@@ -444,7 +458,9 @@ def bank_stream(chk, R, rng, n):
         bankdefs, header, banks, meta = c17_gen.gen_bank_layout(rng)
         prog, inl, feats, depth = c17_gen.gen_macro_case(rng, size_static=True, keep_addr=False, unit=meta['unit'])
         split = rng.range(0, len(prog.items))
-        b = 10 if (rng.chance(0.6) or depth >= 3) else 30
+        b = 10 if rng.chance(0.6) else 30
+        if depth >= 2:
+            b = 10 if depth == 2 else 6      # a rejected program costs about (budget+1)^depth inner rounds in the debug build
         s, m = rng.chance(0.5), rng.chance(0.5)
         mt = c17_gen.banked_text(prog.isa.text(), bankdefs, header, banks, prog.lines(), list(range(len(prog.items))), split)
         it = c17_gen.banked_text(prog.isa.text(), bankdefs, header, banks, inl.lines(), inl.src_index, split)
@@ -493,13 +509,13 @@ def bank_stream(chk, R, rng, n):
                 lines.append('\n'.join(pre + [line] + post))
             bankdefs, header, banks, split = c['layout']
             c['hinted'] = c17_gen.banked_text(c['prog'].isa.text(), bankdefs, header, banks, lines, list(range(len(lines))), split)
-            texts.append((c['hinted'], 30, c['s'], c['m']))
+            texts.append((c['hinted'], rerun_budget(c), c['s'], c['m']))
         ha = R.impl(texts)
-        r30 = R.impl([(c['mt'], 30, c['s'], c['m']) for c in retry])
+        r30 = R.impl([(c['mt'], rerun_budget(c), c['s'], c['m']) for c in retry])
         for c, a, a30 in zip(retry, ha, r30):
             ch, c30 = asm_gen.canon_impl(a), asm_gen.canon_impl(a30)
             fid = known_class("asm_block_no_size_guess")
-            if c['b'] < 30 and msig(c30) == msig(c['ci']):
+            if c['b'] < rerun_budget(c) and msig(c30) == msig(c['ci']):
                 dist["needs_more_passes_than_inlined"] = dist.get("needs_more_passes_than_inlined", 0) + 1
             elif ch[0] == "OK" and msig(ch) == msig(c['ci']) and fid:
                 chk.known(fid, "a macro program fails to converge where the hand-inlined program converges (right bits once the labels are pinned)")
